@@ -9,12 +9,15 @@
 #ifndef MEMCAP
 #error "MEMCAP (largest object size of the unit) must be defined"
 #endif
+#ifndef MEMCPYCAP
+#define MEMCPYCAP MEMCAP      /* largest memcpy/memmove length of the unit (an obligation: asserted at every call) */
+#endif
 unsigned char nondet_membyte(void); int nondet_memcmp_result(void);
-static void vh_havoc(void *d, size_t n) { unsigned char *dd = d; for (size_t i = 0; i < MEMCAP; i++) if (i < n) dd[i] = nondet_membyte(); }
+static void vh_havoc(void *d, size_t n) { unsigned char *dd = d; for (size_t i = 0; i < MEMCPYCAP; i++) if (i < n) dd[i] = nondet_membyte(); }
 void *memmove(void *d, const void *s, size_t n) {
   __CPROVER_assert(__CPROVER_r_ok(s, n), "memmove source readable for n bytes");
   __CPROVER_assert(__CPROVER_w_ok(d, n), "memmove destination writable for n bytes");
-  __CPROVER_assert(n <= MEMCAP, "memmove length within the unit's capacity");
+  __CPROVER_assert(n <= MEMCPYCAP, "memmove length within the unit's capacity");
 #ifdef VH_MEMMOVE_HOOK
   VH_MEMMOVE_HOOK(d, s, n);
 #endif
@@ -23,7 +26,7 @@ void *memmove(void *d, const void *s, size_t n) {
 void *memcpy(void *d, const void *s, size_t n) {
   __CPROVER_assert(__CPROVER_r_ok(s, n), "memcpy source readable for n bytes");
   __CPROVER_assert(__CPROVER_w_ok(d, n), "memcpy destination writable for n bytes");
-  __CPROVER_assert(n <= MEMCAP, "memcpy length within the unit's capacity");
+  __CPROVER_assert(n <= MEMCPYCAP, "memcpy length within the unit's capacity");
   vh_havoc(d, n); return d;
 }
 void *memset(void *d, int c, size_t n) {
